@@ -373,4 +373,34 @@ theorem index_code_roundtrip (z : S2) (hz : S2Law z) (off len : Nat) (es : List 
     simp [List.map_map, Function.comp_def, toIT_ofIT]
   · cases h
 
+/-! ### `Footer.Encode` / `Footer.Decode` -/
+
+theorem encodeFooter_eq (mo ml io il magic : Nat) :
+    GenCodec.encodeFooter mo ml io il magic = some (encFooter { metaH := ⟨mo, ml⟩, indexH := ⟨io, il⟩, magic := magic }) := by
+  unfold GenCodec.encodeFooter encFooter
+  simp [List.append_assoc]
+
+/-- the translated `Footer.Decode` is the model's: an error on fewer than forty bytes or a wrong magic number, the five fields
+    otherwise (the receiver is written only on success) -/
+theorem decodeFooter_eq (footer : Bytes) (f0 : Nat × Nat × Nat × Nat × Nat) :
+    GenCodec.decodeFooter footer f0 =
+      (decFooter footer).map fun f => (f.metaH.off, f.metaH.len, f.indexH.off, f.indexH.len, f.magic) := by
+  unfold GenCodec.decodeFooter decFooter
+  cases h1 : decLE 8 footer with
+  | none => simp [GenCodec.rdN, h1]
+  | some r1 =>
+    cases h2 : decLE 8 r1.2 with
+    | none => simp [GenCodec.rdN, h1, h2]
+    | some r2 =>
+      cases h3 : decLE 8 r2.2 with
+      | none => simp [GenCodec.rdN, h1, h2, h3]
+      | some r3 =>
+        cases h4 : decLE 8 r3.2 with
+        | none => simp [GenCodec.rdN, h1, h2, h3, h4]
+        | some r4 =>
+          cases h5 : decLE 8 r4.2 with
+          | none => simp [GenCodec.rdN, h1, h2, h3, h4, h5]
+          | some r5 =>
+            by_cases hm : r5.1 = Consts.magic <;> simp [GenCodec.rdN, h1, h2, h3, h4, h5, hm]
+
 end CodecTie
